@@ -57,7 +57,7 @@ MUST_REACH = ['photutils.background.background_2d:Background2D._calculate_stats'
               'photutils.extern.biweight:biweight_scale']
 ANCHOR_FILES = ['background/background_2d.py', 'background/core.py', 'background/interpolators.py',
                 'utils/_stats.py', 'utils/interpolation.py', 'extern/biweight.py']
-MIN_NONTRIVIAL = {'quick': 600, 'thorough': 8000}
+MIN_NONTRIVIAL = {'quick': 300, 'thorough': 6000}
 ASSUMPTIONS = [
     'numpy, scipy.ndimage.zoom and astropy.stats.SigmaClip are trusted',
     'estimator classes are trusted inputs (the statement takes "the chosen estimator" as given): the reference applies '
@@ -460,14 +460,22 @@ def run_case(case):
         return
     if is_int:
         info = np.iinfo(data.dtype)
-        outside = (s_in | s_tie) & ((rbkg < info.min - (atol + 1e-6)) | (rbkg > info.max + (atol + 1e-6)))
+        def beyond(a):
+            with np.errstate(invalid='ignore'):
+                return (a < info.min - (atol + 1e-6)) | (a > info.max + (atol + 1e-6))
+        outside = (s_in | s_tie) & (beyond(rbkg) | beyond(rrms))
         if outside.any():
-            # the statistic is not representable in the integer input dtype the library casts the mesh to
+            # a statistic (background or RMS, e.g. the RMS of an int8 image spanning -128..127) is not representable
+            # in the integer input dtype the library casts the meshes to
             # (a library that saturates at the dtype limits instead is accepted)
             ok = ref.trunc_band_ok(_fl(U)[outside], np.clip(rbkg[outside], info.min, info.max),
                                    atol + rt * np.abs(rbkg[outside]))
-            case.check(bool(ok.all()), 'int_dtype_range_mesh', dict(mech, stat_outside_int_dtype_range=True),
-                       obs=U[outside][:4].tolist(), exp=rbkg[outside][:4].tolist(), data_dtype=str(data.dtype))
+            okr = ref.trunc_band_ok(_fl(Ur)[outside], np.clip(np.nan_to_num(rrms[outside]), info.min, info.max),
+                                    atol + rt * np.abs(np.nan_to_num(rrms[outside])))
+            case.check(bool(ok.all() and okr.all()), 'int_dtype_range_mesh',
+                       dict(mech, stat_outside_int_dtype_range=True),
+                       obs=U[outside][:4].tolist(), exp=rbkg[outside][:4].tolist(),
+                       obs_rms=Ur[outside][:4].tolist(), exp_rms=rrms[outside][:4].tolist(), data_dtype=str(data.dtype))
             case.note('stat_outside_int_dtype_range_cases')
             return
     cmp_boxes(s_in, mech)
@@ -748,7 +756,7 @@ def _float16_case(case, spec, mech):
     try:
         o16 = scenes.outputs(scenes.construct(sp16))
     except RuntimeError as exc:
-        if 'array type' in str(exc) and 'not supported' in str(exc):
+        if 'not supported' in str(exc):
             case.note('axis2_float16_rejected_by_scipy_ndimage')
             return
         raise
@@ -966,7 +974,8 @@ def _rel_scale(case, spec, meta, out, off, scale, rel, mech, is_int, int_tol, po
         return
     if is_int:
         k = int(scenes._pick(rng, [2, 4, 3, 10]))
-        if int(np.abs(data).max()) * k > np.iinfo(data.dtype).max:
+        info = np.iinfo(data.dtype)
+        if int(data.max()) * k > info.max or int(data.min()) * k < info.min:
             return
         d2 = (data * data.dtype.type(k)).astype(data.dtype)
         pow2 = False
